@@ -170,6 +170,12 @@ def run_c01(tier, replay=None):
         results, distinct, generated = monitor_shards("MonitorMut", traces, work.dir)
         fails = judge(prop, verdict, traces, results)
         winfo, wres, wsample = walks_direction2(gv, work, plan["walks"], verdict, prop)
+        # value semantics of Edge / Node (ordered, reversed, Eq / Ord / Hash) over a small universe
+        run_gv(gv, ["values", "--out", work.path("values.ndjson")])
+        vres, vdistinct, vgen = monitor_shards("ValueTypes", [work.path("values.ndjson")], work.dir)
+        for eid, group, checks in parse_nonconf(vres[0]["out"]):
+            for ck in checks:
+                verdict.nonconf("values", ck, {}, "Edge/Node value semantics: %s" % ck, {"property": prop, "kind": "values", "failed_check": ck})
         sample_events = []
         with open(traces[0]) as f:
             for i, line in enumerate(f):
@@ -189,6 +195,7 @@ def run_c01(tier, replay=None):
             "direction1": {"events_monitored": nev, "event_kinds": counts, "monitor_states": distinct, "plan": plan,
                            "failed_checks": {"%s/%s" % k: v for k, v in fails.items()}},
             "direction2": winfo,
+            "value_semantics": {"module": "ValueTypes", "edge_pairs": 36 * 36, "node_pairs": 36, "laws_checked_by_tlc": 4},
             "explanation": "TLC explores the abstract mutation machine for all 96 GraphSpecs; the harness records forests of real "
                            "calls (exhaustive to the stated depth, plus random histories incl. batch forms and new_from_nodes_and_edges) "
                            "and TLC validates every event against AddEdgeRule/AddNodeRule; TLC-generated walks are replayed into the library.",
